@@ -31,6 +31,8 @@ more.register(globals(), {"C09"}, ["fanout_loop", "map_retry_batches"])
 import s2_found as found
 found.register(globals(), {"C09"}, ["caught_then_outer_fails", "three_levels", "backstop_after_end"], {"caught_then_outer_fails": [("_a", "a_fails"), ("_noa", "not a_fails")]})
 
+found.register(globals(), {"C09"}, ["map_selector_failure"])
+
 
 # ---------------------------------------------------------------------------
 # One-step kernels (Engine A)
